@@ -67,6 +67,7 @@ type c24bWorld struct {
 	out   map[int]*c24bHold
 	finds []c24bFinding
 	seen  map[string]bool
+	live  int32 // operation goroutines of this world that have not returned yet
 }
 
 func (w *c24bWorld) stamp() int64 { return atomic.AddInt64(&w.clock, 1) }
@@ -436,11 +437,13 @@ func (s *c24bSys) start(w *c24bWorld, c c24bCase, kind string, g int, h *c24bHol
 	o := &c24bOp{kind: kind}
 	ctx, cancel := context.WithCancel(context.Background())
 	o.cancel = cancel
+	atomic.AddInt32(&w.live, 1)
 	go c24bRunOp(w, o, ctx, g, h, c.Tgt)
 	return o
 }
 
 func c24bRunOp(w *c24bWorld, o *c24bOp, ctx context.Context, g int, h *c24bHold, tgt string) {
+	defer atomic.AddInt32(&w.live, -1)
 	defer atomic.StoreInt32(&o.done, 1)
 	target := 0
 	if o.kind == "capUp" || o.kind == "capDown" {
@@ -503,6 +506,7 @@ func (s *c24bSys) finish(w *c24bWorld, check bool, pending func() bool) {
 		for _, h := range w.outstanding() {
 			// on its own goroutine: a return that blocks must not take the monitor with it
 			o := &c24bOp{kind: "recycle"}
+			atomic.AddInt32(&w.live, 1)
 			go c24bRunOp(w, o, nil, 0, h, "")
 			s.quiet()
 			if !o.isDone() {
@@ -522,6 +526,7 @@ func (s *c24bSys) finish(w *c24bWorld, check bool, pending func() bool) {
 		}
 	}
 	o := &c24bOp{kind: "close"}
+	atomic.AddInt32(&w.live, 1)
 	go c24bRunOp(w, o, nil, 9, nil, "")
 	s.quiet()
 	closed := o.isDone() && (pending == nil || !pending())
@@ -532,6 +537,15 @@ func (s *c24bSys) finish(w *c24bWorld, check bool, pending func() bool) {
 			w.add("q.closed", fmt.Sprintf("after Close: capacity=%d inUse=%d available=%d active=%d", p.Capacity(), p.InUse(), p.Available(), p.Active()))
 		}
 		w.historyOracles(closed)
+	}
+	// After a recorded deadlock: feed the waiting shrink empty slots so that the parked
+	// goroutines of this (already judged) world unwind instead of piling up in later dumps.
+	for i := 0; i < 8 && s.incon == "" && atomic.LoadInt32(&w.live) > 0; i++ {
+		func() {
+			defer func() { recover() }()
+			w.rp.Put(nil)
+		}()
+		s.quiet()
 	}
 }
 
@@ -637,7 +651,8 @@ func (s *c24bSys) runStress(c c24bCase) *c24bOutcome {
 	var running int32
 	spawn := func(fn func()) {
 		atomic.AddInt32(&running, 1)
-		go c24bStressGo(&running, fn)
+		atomic.AddInt32(&w.live, 1)
+		go c24bStressGo(&running, &w.live, fn)
 	}
 	label := fmt.Sprintf("C24b/stress/%d", c.Run)
 	for i := 0; i < c.Workers; i++ {
@@ -722,7 +737,8 @@ func (s *c24bSys) runStress(c c24bCase) *c24bOutcome {
 	return out
 }
 
-func c24bStressGo(running *int32, fn func()) {
+func c24bStressGo(running, live *int32, fn func()) {
+	defer atomic.AddInt32(live, -1)
 	defer atomic.AddInt32(running, -1)
 	fn()
 }
@@ -788,10 +804,10 @@ func TestVerif_C24b(t *testing.T) {
 
 	thorough := kit.Tier() == "thorough"
 	type cm struct{ c, m int }
-	caps := []cm{{1, 2}, {2, 3}}
+	caps := []cm{{1, 2}}
 	tgts := []string{"far"}
 	if thorough {
-		caps = []cm{{1, 1}, {1, 2}, {1, 3}, {2, 2}, {2, 3}, {3, 4}}
+		caps = []cm{{1, 1}, {1, 2}, {1, 3}, {2, 3}}
 		tgts = []string{"far", "near"}
 	}
 	sampled := 0
@@ -850,7 +866,7 @@ func TestVerif_C24b(t *testing.T) {
 			}
 		}
 	}
-	runs := kit.N(40, 600)
+	runs := kit.N(30, 300)
 	sr := kit.SubRand(kit.Seed(), "C24b/stress/plan")
 	mixes := []string{"close", "setcap", "setcap+close", "plain"}
 	for run := 0; run < runs; run++ {
